@@ -473,7 +473,7 @@ class C33(Prop):
     pid = "C33"
     title = "The soft-cut library picks the lowest-indexed applicable rule"
     technique = ("bounded-exhaustive enumeration of indexed rule sets (index subset x every file order x "
-                 "applicability pattern x realisation) on the real library(cut): deterministic conditions through "
+                 "applicability pattern x realisation; keys atomic and structured with/without variables) on the real library(cut): deterministic conditions through "
                  "engine.query on a prepared database, probabilistic conditions through the default inference "
                  "pipeline against the closed form app_i*prod_{j<i}(1-app_j); smallest index by reference order R5")
     rule = ("index subsets of {1,2,3,9,10,11,15} of size <= 4 (98 subsets), all k! file orders; det: rule kinds "
@@ -486,19 +486,28 @@ class C33(Prop):
             "in body style (cut/1, cut/2).  prob: kinds N/D/P "
             "(quick, sizes <= 3; size 3 through cut/2 only) and N/D/P/Q (thorough, sizes <= 3; size 4 N/D/P), all file orders, "
             "queries cut/1 and cut/2.  "
+            "struct (structured keys): index subsets of {1,2,3,10} of size <= 3 (14 subsets), all k! file orders; "
+            "the key of a rule ranges over a, _, f(a), f(b), f(_), [a], [_|_], g(a,_), g(_,b) as head key (head style) "
+            "or as key of its t/2 fact (body style); calls with the ground keys f(a), f(b), g(a,b), [a]; applicability by "
+            "the reference matcher.  quick: sizes 1-2 every assignment of the 7 keys a, _, f(a), f(b), f(_), [_|_], "
+            "g(a,_) x 2 styles x 4 call keys x cut/1, cut/2; size 3 every assignment of the 4 keys _, f(_), [_|_], "
+            "g(a,_) x 2 styles x (cut/1 on f(a) and [a], cut/2 on f(b) and g(a,b)).  thorough: sizes 1-2 all 9 keys, "
+            "size 3 the 7 keys, x 2 styles x 4 call keys x cut/1, cut/2.  "
             "Non-trivial: at least two rules and the winner is not decided by the file order alone, i.e. the first "
             "applicable clause in file order is not the expected winner, or (prob) at least one probabilistic "
             "condition below the last applicable rule")
     assumptions = [
         "indices are unique inside a rule set (the statement speaks of 'the' applicable rule)",
         "calls with an unbound key or a bound index argument are outside the statement and not enumerated",
+        "structured keys: call keys are ground and every variable of a rule key occurs once, so applicability is "
+        "linear pattern matching (no bindings flow into the answer)",
         "answers are compared as sets of ground instances; probabilities with tolerance 1e-9; instances reported "
         "with probability 0 are equal to absent ones",
         "rule sets are batched under distinct predicate names in one program; a mismatch counts only if the "
         "stand-alone program reproduces it (a batch-only mismatch is reported as CAP)",
         "timeouts are counted, never judged",
     ]
-    budget = {"quick": 55, "thorough": 1150}
+    budget = {"quick": 55, "thorough": 1190}
 
     def precheck(self, tier):
         n = R.self_check()
@@ -603,7 +612,9 @@ class C33(Prop):
             h = BuiltinHarness(text)
             for n, (order, kinds) in enumerate(chunk):
                 if acc.violation_count >= MAX_VIOLATIONS_PER_SHARD:
-                    break
+                    acc.cap("a shard stopped after %d violating executions" % MAX_VIOLATIONS_PER_SHARD)
+                    acc.counters["shards_stopped_on_violations"] += 1
+                    return
                 acc.states += 1
                 pred = "r%d" % n
                 for variant, arg in queries:
